@@ -41,6 +41,10 @@ theorem tryE_obind {α β γ : Type} (o : Option α) (K' : α → Except Err β)
     tryE (obind o K') (fun e => .error e) K = obind o (fun a => tryE (K' a) (fun e => .error e) K) := by
   cases o <;> rfl
 
+theorem exc_map_map {α β γ : Type} (x : Except Err α) (f : α → β) (g : β → γ) :
+    (x.map f).map g = x.map (fun a => g (f a)) := by
+  cases x <;> rfl
+
 theorem tryE_ofOpt {α β : Type} (o : Option α) (K : α → Except Err β) :
     tryE (ofOpt o) (fun e => .error e) K = obind o K := by
   cases o <;> rfl
